@@ -38,3 +38,13 @@ VARIANTS += [
  dict(id='c08-silent-created-zeros-no-column', prop='C08', kind='silent', file='scared/analysis/base.py',
       old="self.convergence_traces = _np.empty(self.scores.shape + (0, ), dtype=self.precision)", new="self.convergence_traces = _np.zeros((*self.scores.shape, 0), dtype=self.precision)"),
 ]
+
+VARIANTS += [
+ dict(id='c08-p6ref5-enum-state-reference-not-advanced', prop='C08', base='P6-REF5', expect='C08-D4', file='scared/analysis/base.py',
+      old="            self._batches_processed = [self._batches_processed[-1]]\n            return _Convergence.POINT_REACHED\n",
+      new="            self._batches_processed = [self._batches_processed[0]]\n            return _Convergence.POINT_REACHED\n"),
+ dict(id='c08-p6ref5-enum-state-pending-too-early', prop='C08', base='P6-REF5', expect='C08-D3', file='scared/analysis/base.py',
+      old="        if len(self._batches_processed) > 1:\n            return _Convergence.PENDING\n", new="        if len(self._batches_processed) > 0:\n            return _Convergence.PENDING\n"),
+ dict(id='c08-p6ref5-enum-state-point-on-pending', prop='C08', base='P6-REF5', expect='C08', file='scared/analysis/base.py',
+      old="        if self._register_processed_batch() is _Convergence.POINT_REACHED:\n", new="        if self._register_processed_batch() is not _Convergence.DISABLED:\n", allow_undecided=True),
+]
